@@ -18,6 +18,8 @@ def _truncated_exponential_(rate, T):
     r'''returns a number between 0 and T from an
     exponential distribution conditional on the outcome being between 0 and T'''
     t = random.expovariate(rate)
+    if T == float('Inf'): #nothing to truncate (and Inf*0 below would give nan)
+        return t
     L = int(t/T)
     return t - L*T
    
@@ -1927,8 +1929,11 @@ def _trans_and_rec_time_Markovian_const_trans_(node, sus_neighbors, tau, rec_rat
     commented out the more "sophisticated" approach.
     '''
     
-    duration = random.expovariate(rec_rate_fxn(node))
-
+    rec_rate = rec_rate_fxn(node)
+    if rec_rate>0:
+        duration = random.expovariate(rec_rate)
+    else:  #a node whose recovery weight is 0 never recovers
+        duration = float('Inf')
         
     trans_prob = 1-np.exp(-tau*duration)
     number_to_infect = np.random.binomial(len(sus_neighbors),trans_prob)
